@@ -61,6 +61,8 @@ SPELLINGS = ("dec", "hex", "oct", "bin")
 def spell(value: int, how: str) -> str:
     if how == "dec":
         return str(value)
+    if how == "hexu":  # upper-case hex digits, lower-case prefix
+        return "0x" + spell(value, "hex")[2:].upper()
     digits = {"hex": "0123456789abcdef", "oct": "01234567", "bin": "01"}[how]
     base = len(digits)
     n, out = value, ""
